@@ -1,5 +1,6 @@
 import GqlVerif.Proofs.C07Extensions
 import GqlVerif.Model.Codegen
+import GqlVerif.Proofs.CalcVariantsPushed
 /-!
 # C07 — a renumbering of the field ids is invisible in the generated code
 
@@ -888,6 +889,37 @@ theorem filter_mapVSel (ρ : Nat → Nat) (vsels : List VariantSel) (vt : TypeId
   intro v _
   simp
 
+/-- (P41) whether a selection pushes a field for the struct of type `vt` does not depend on the field ids -/
+theorem selPushes_map (ρ : Nat → Nat) (q : Query) (vt : TypeId) (x : Sel) :
+    selPushes (mapQ ρ q) vt (mapSel ρ x) = selPushes q vt x := by
+  cases x with
+  | field a fid sub => rw [mapSel]; rfl
+  | spread g =>
+    rw [mapSel]
+    simp only [selPushes, mapQ_fragments, List.getElem?_map]
+    cases q.fragments[g]? <;> rfl
+  | inline t' sub => rw [mapSel]; rfl
+  | typename => rfl
+
+/-- (P41) `has_fields` of a variant struct is invariant under the renaming of field ids -/
+theorem pushedAny_map (ρ : Nat → Nat) (q : Query) (vt : TypeId) : ∀ mine : List VariantSel,
+    pushedAny (mapQ ρ q) vt (mine.map (mapVSel ρ)) = pushedAny q vt mine
+  | [] => rfl
+  | .spread g fr :: rest => by
+    rw [List.map_cons, mapVSel, Pushed.pushedAny_spread, Pushed.pushedAny_spread]
+  | .inline t' sub :: rest => by
+    rw [List.map_cons, mapVSel]
+    by_cases hsp : ∃ g, sub = [Sel.spread g]
+    · obtain ⟨g, rfl⟩ := hsp
+      rw [show mapSels ρ [Sel.spread g] = [Sel.spread g] from rfl, Pushed.pushedAny_inline_lone,
+        Pushed.pushedAny_inline_lone, pushedAny_map ρ q vt rest]
+    · rw [Pushed.pushedAny_inline _ _ _ _ (fun g hg => hsp ⟨g, (mapSels_single ρ sub g).1 hg⟩),
+        Pushed.pushedAny_inline _ _ _ _ (fun g hg => hsp ⟨g, hg⟩), pushedAny_map ρ q vt rest, mapSels_eq_map,
+        List.any_map]
+      congr 2
+      funext x
+      exact selPushes_map ρ q vt x
+
 section
 variable {ρ : Nat → Nat} {t : Schema} (c : Ctx) (h : FieldIso ρ c.s t)
 
@@ -953,7 +985,7 @@ theorem istep2 (f : Nat) (H2 : I2 (ρ := ρ) (t := t) c f) (H3 : I3 (ρ := ρ) (
   | nil => rw [calcVariants.eq_2 _ _ _ _ _ (by omega), calcVariants.eq_2 _ _ _ _ _ (by omega)]
   | cons vt rest =>
     rw [calcVariants.eq_3, calcVariants.eq_3]
-    simp only [mapC_s, mapC_q, h.typeName, filter_mapVSel, H2 _ _ vsels rest, renderType_mapC, aliasMember_mapC]
+    simp only [mapC_s, mapC_q, h.typeName, filter_mapVSel, pushedAny_map, H2 _ _ vsels rest, renderType_mapC, aliasMember_mapC]
     cases c.s.typeName vt with
     | error e => rfl
     | ok vname =>
